@@ -124,11 +124,28 @@ func c08Shape(r *rand.Rand, maxD int) (defs string, used map[string]bool, nfn in
 	used = map[string]bool{}
 	nfn = 1 + r.Intn(3)
 	var sb strings.Builder
-	sb.WriteString("(do\n")
+	sb.WriteString("(do\n(defmacro c08-defn (fn (name params body) (quasiquote (def (unquote name) (fn (unquote params) (unquote body))))))\n")
 	for i := 0; i < nfn; i++ {
 		next := fmt.Sprintf("f%d", (i+1)%nfn)
 		call := fmt.Sprintf("(%s (- n 1))", next)
 		body := c08Tail(r, call, 1+r.Intn(maxD), used)
+		if style := r.Intn(8); style < 3 {
+			// the function is not written as a literal (fn …) at its definition site: it is built by a macro, by eval of
+			// a constructed list, or read from a string at run time
+			fnBody := fmt.Sprintf("(if (< n 1) (depth!) %s)", body)
+			switch style {
+			case 0:
+				used["def-via-macro"] = true
+				fmt.Fprintf(&sb, "(c08-defn f%d (n) %s)\n", i, fnBody)
+			case 1:
+				used["def-via-eval-of-list"] = true
+				fmt.Fprintf(&sb, "(def f%d (eval (list (quote fn) (list (quote n)) (quote %s))))\n", i, fnBody)
+			default:
+				used["def-via-read-string"] = true
+				fmt.Fprintf(&sb, "(def f%d (eval (read-string %q)))\n", i, "(fn (n) "+fnBody+")")
+			}
+			continue
+		}
 		switch r.Intn(4) {
 		case 0:
 			// base case in the then branch
@@ -158,6 +175,10 @@ func runC08(c *fw.Ctx) {
 		c.Case(fmt.Sprintf("shape-%d", i), defs, func() {
 			mon := &c08Mon{}
 			env := hx.Sub(base)
+			if used["def-via-eval-of-list"] || used["def-via-read-string"] {
+				// eval evaluates in the environment it was loaded into: such shapes get an environment of their own
+				env = hx.NewStdEnv()
+			}
 			c08Install(env, mon)
 			if o := hx.EvalText(context.Background(), defs, env); o.Err != nil || o.Panicked {
 				c.Violate(fw.Violation{Key: "shape-rejected", What: fmt.Sprint("definitions failed: ", o.Err, o.PanicMsg)})
